@@ -428,9 +428,36 @@ def deserialize (valid : List UInt8 → Bool) (osDe : Token → Except Err (List
     (k : HipKind) (e : Entry) (t : Token) : Except Err (List UInt8 × Bool) :=
   deserializeFuel valid osDe Gen.Visitors.visitors Gen.Visitors.deRows 3 k e t
 
+/-- The hint `h` is acceptable for an entry point of `kind`/`entry`.  A BORROWING entry point must
+ask for the borrowable form (`deserialize_bytes` / `deserialize_str`): a format that honours
+hints (bincode-like) lends its input for those and hands out a fresh `Vec`/`String` for
+`deserialize_byte_buf` / `deserialize_string`, so asking for the owned form makes
+`borrow_deserialize` copy.  An OWNED entry point may ask for either form of its own family. -/
+def hintOk (kind : HipKind) (entry : Entry) (h : Hint) : Bool :=
+  match kind, entry with
+  | .byt, .borrowing => h == .bytes
+  | .str, .borrowing => h == .str
+  | .byt, .owned => h == .bytes || h == .byteBuf
+  | .str, .owned => h == .str || h == .string
+  | _, _ => false
+
+/-- The `Deserializer::deserialize_*` method an entry point ends up calling: its own, or the one
+of the crate entry point it delegates to (`none`: std's `OsString`, or no such row). -/
+def entryHint (ds : List DeRow) (k : HipKind) (e : Entry) : Option Hint :=
+  match findDe ds k e with
+  | some r =>
+    match r.target with
+    | .visitor h _ => some h
+    | .hip k' e' =>
+      (match findDe ds k' e' with
+       | some r' => (match r'.target with | .visitor h _ => some h | _ => none)
+       | none => none)
+    | .stdOsString => none
+  | none => none
+
 /-- Row predicate of the entry-point table: a visitor target exists, has the row's kind, is the
-borrowed visitor exactly for `borrow_deserialize`, and the hint is the type's own
-(`deserialize_bytes`/`_byte_buf` for `HipByt`, `deserialize_str`/`_string` for `HipStr`);
+borrowed visitor exactly for `borrow_deserialize`, and the hint is acceptable (`hintOk`: the
+borrowable form for `borrow_deserialize`, the type's own family otherwise);
 `OsString` is only used by `HipOsStr`; a crate delegate is a *visitor* row of the same entry
 kind. -/
 def deRowOk (vs : List VisitorRow) (ds : List DeRow) (r : DeRow) : Bool :=
@@ -440,10 +467,7 @@ def deRowOk (vs : List VisitorRow) (ds : List DeRow) (r : DeRow) : Bool :=
     (match findVisitor vs id with
      | some v => v.kind == r.kind && v.borrowsDe == (r.entry == .borrowing)
      | none => false) &&
-    (match r.kind with
-     | .byt => h == .bytes || h == .byteBuf
-     | .str => h == .str || h == .string
-     | _ => false)
+    hintOk r.kind r.entry h
   | .stdOsString => r.kind == .os && r.entry == .owned
   | .hip k e =>
     r.kind == .path && k == .str && e == r.entry &&
